@@ -105,8 +105,17 @@ def r2(ctx, facts):
                 ok = False
                 why = "inner get not under contains(inner mask, same id): guarded=%s, value/id plumbing=%s" % (g, v)
             # None on the other edge
-            nones = [d for d in b.defs().get(0, []) if d[0] == "stmt" and d[4]["k"] == "aggregate" and d[4].get("variant") == "None"]
-            somes = [d for d in b.defs().get(0, []) if d[0] == "stmt" and d[4]["k"] == "aggregate" and d[4].get("variant") == "Some"]
+            # the Option aggregates that can be the returned value (built into the return place directly or into a temporary first)
+            aggs = []
+            todo = list(b.ret_origins())
+            while todo:
+                o_ = todo.pop()
+                if o_[0] == "phi":
+                    todo.extend(o_[2])
+                elif o_[0] == "agg" and not o_[3]:
+                    aggs.append(o_)
+            nones = [("agg", o_[1]) for o_ in aggs if b.blocks[o_[1]]["stmts"][o_[2]]["rv"].get("variant") == "None"]
+            somes = [("agg", o_[1]) for o_ in aggs if b.blocks[o_[1]]["stmts"][o_[2]]["rv"].get("variant") == "Some"]
             if edges and (not nones or any(d[1] in b.reachable(0, removed={e["false_edge"] for e in edges}) for d in nones) or
                           any(d[1] in b.reachable(0, removed={e["true_edge"] for e in edges}) for d in somes)):
                 ok = False
